@@ -71,7 +71,10 @@ const (
 	// with the histogram bucket bound values.
 	DefaultHistogramBucketTagPrecision = uint(6)
 
-	_emitMetricBatchOverhead    = 19
+	// _emitMetricBatchOverhead is the most the header of the batch's metric
+	// list can grow over that of an empty list (compact protocol: a varint
+	// of the element count). The rest of the envelope is measured.
+	_emitMetricBatchOverhead    = 5
 	_minMetricBucketIDTagLength = 4
 	_timeResolution             = 100 * time.Millisecond
 )
@@ -234,16 +237,26 @@ func NewReporter(opts Options) (Reporter, error) {
 		})
 	}
 
-	// Calculate size of common tags
+	// Calculate size of the message envelope and the common tags: a one-way
+	// emitMetricBatchV2 message carrying a batch without metrics, with the
+	// largest sequence id; _emitMetricBatchOverhead is added on top of that.
 	var (
 		batch = m3thrift.MetricBatch{
 			Metrics:    resourcePool.getMetricSlice(),
 			CommonTags: tags,
 		}
 		proto = resourcePool.getProto()
+		args  = m3thrift.M3EmitMetricBatchV2Args{Batch: batch}
 	)
 
-	if err := batch.Write(proto); err != nil {
+	err = proto.WriteMessageBegin("emitMetricBatchV2", thrift.ONEWAY, math.MaxInt32)
+	if err == nil {
+		err = args.Write(proto)
+	}
+	if err == nil {
+		err = proto.WriteMessageEnd()
+	}
+	if err != nil {
 		return nil, errors.WithMessage(
 			err,
 			"failed to write to proto for size calculation",
@@ -405,11 +418,9 @@ func (r *reporter) AllocateHistogram(
 				durationUpperBound: pair.UpperBoundDuration(),
 				metric:             &counter,
 			}
-			delta = len(r.bucketIDTagName) + len(r.bucketTagName) + len(hbucket.bucketID)
 		)
 
 		hbucket.metric.metric.Tags = mtags
-		hbucket.metric.size = r.calculateSize(hbucket.metric.metric)
 
 		if isDuration {
 			bname := r.stringInterner.Intern(
@@ -417,7 +428,7 @@ func (r *reporter) AllocateHistogram(
 					r.durationBucketString(pair.UpperBoundDuration()),
 			)
 			hbucket.bucket = bname
-			hbucket.metric.size += int32(delta + len(bname))
+			hbucket.metric.size = r.bucketMetricSize(hbucket)
 			cachedDurationBuckets = append(cachedDurationBuckets, hbucket)
 		} else {
 			bname := r.stringInterner.Intern(
@@ -425,7 +436,7 @@ func (r *reporter) AllocateHistogram(
 					r.valueBucketString(pair.UpperBoundValue()),
 			)
 			hbucket.bucket = bname
-			hbucket.metric.size += int32(delta + len(bname))
+			hbucket.metric.size = r.bucketMetricSize(hbucket)
 			cachedValueBuckets = append(cachedValueBuckets, hbucket)
 		}
 
@@ -439,6 +450,22 @@ func (r *reporter) AllocateHistogram(
 		cachedValueBuckets:    cachedValueBuckets,
 		cachedDurationBuckets: cachedDurationBuckets,
 	}
+}
+
+// bucketMetricSize is the size charged for a histogram bucket metric: it is
+// sent with the bucket id and bucket tags appended to its own tags, so it is
+// measured that way (struct and list overhead of the two tags included).
+func (r *reporter) bucketMetricSize(b cachedHistogramBucket) int32 {
+	m := b.metric.metric
+	tags := make([]m3thrift.MetricTag, 0, len(m.Tags)+2)
+	tags = append(tags, m.Tags...)
+	tags = append(
+		tags,
+		m3thrift.MetricTag{Name: r.bucketIDTagName, Value: b.bucketID},
+		m3thrift.MetricTag{Name: r.bucketTagName, Value: b.bucket},
+	)
+	m.Tags = tags
+	return r.calculateSize(m)
 }
 
 func (r *reporter) valueBucketString(v float64) string {
